@@ -10,6 +10,7 @@ import (
 	"net/http"
 	"net/http/httptest"
 	"net/url"
+	"strconv"
 	"strings"
 	"sync"
 	"testing"
@@ -226,13 +227,21 @@ func c27Unpack(v string, key []byte) (c c27Cookie, raw []byte, offs []int, statu
 
 type c27Origin struct{ Scheme, Host, Port string }
 
+// c27ParseEntry reads an allowlist entry as the origin it names: surrounding
+// whitespace and anything from the first '/', '?' or '#' after the authority
+// (an origin has no path; "https://h:443/" names the same origin as
+// "https://h:443") do not change which scheme, host and port are named.
 func c27ParseEntry(e string) (c27Origin, bool) {
+	e = strings.TrimSpace(e)
 	i := strings.Index(e, "://")
 	if i < 0 {
 		return c27Origin{}, false
 	}
 	o := c27Origin{Scheme: strings.ToLower(e[:i])}
 	hp := e[i+3:]
+	if j := strings.IndexAny(hp, "/?#"); j >= 0 {
+		hp = hp[:j]
+	}
 	if j := strings.LastIndex(hp, ":"); j >= 0 && !strings.Contains(hp[j:], "]") {
 		o.Host, o.Port = strings.ToLower(hp[:j]), hp[j+1:]
 	} else {
@@ -329,6 +338,7 @@ func c27Classify(loc, prefix string, allow []string) string {
 		return "external-ok"
 	}
 	entries := append([]string{"https://cupola.query-farm.services"}, allow...)
+	hostListed := false
 	for _, e := range entries {
 		o, ok := c27ParseEntry(e)
 		if !ok || o.Scheme != scheme || o.Host != host {
@@ -337,6 +347,11 @@ func c27Classify(loc, prefix string, allow []string) string {
 		if o.Port == "" || c27EffPort(scheme, o.Port) == c27EffPort(scheme, port) {
 			return "external-ok"
 		}
+		hostListed = true
+	}
+	if hostListed {
+		// scheme and host match entries that all name a port, and none names this one
+		return "external-port-mismatch"
 	}
 	return "external-unlisted"
 }
@@ -350,6 +365,36 @@ var c27AllowPool = []string{
 	"https://xn--bcher-kva.example", "http://intranet:8080", "https://example.com",
 }
 
+// c27GenAllowEntry derives a configured allowlist entry from a pool origin:
+// the port it names is kept, replaced by its scheme's default port (an entry
+// may spell out :443 / :80), or by a member of the usual port family; the
+// entry is spelt plainly, with a trailing slash, or with surrounding
+// whitespace, as an operator's configuration file might.
+func c27GenAllowEntry(t *rapid.T, pool string) string {
+	o, _ := c27ParseEntry(pool)
+	def := map[string]string{"https": "443", "http": "80"}[o.Scheme]
+	otherDef := map[string]string{"https": "80", "http": "443"}[o.Scheme]
+	switch rapid.IntRange(0, 5).Draw(t, "allowport") {
+	case 0, 1:
+		o.Port = def
+	case 2:
+		o.Port = []string{otherDef, "8443", "8080", "1", "65535", ""}[rapid.IntRange(0, 5).Draw(t, "allowportpick")]
+	case 3:
+		o.Port = fmt.Sprint(rapid.IntRange(1, 65535).Draw(t, "allowportnum"))
+	}
+	e := o.Scheme + "://" + o.Host
+	if o.Port != "" {
+		e += ":" + o.Port
+	}
+	switch rapid.IntRange(0, 7).Draw(t, "allowspell") {
+	case 0:
+		e += "/"
+	case 1:
+		e = []string{" " + e, e + " ", e + "/ ", "\t" + e, e + "\n", " " + e + " "}[rapid.IntRange(0, 5).Draw(t, "allowspace")]
+	}
+	return e
+}
+
 func c27HostPort(base string) string {
 	if i := strings.Index(base, "://"); i >= 0 {
 		return base[i+3:]
@@ -360,6 +405,15 @@ func c27HostPort(base string) string {
 func c27GenReturnTo(t *rapid.T, allow []string) (string, bool) {
 	bases := append([]string{"https://cupola.query-farm.services", "http://localhost", "http://127.0.0.1", "http://localhost:3000"}, allow...)
 	base := bases[rapid.IntRange(0, len(bases)-1).Draw(t, "rtbase")]
+	if len(allow) > 0 && rapid.IntRange(0, 2).Draw(t, "rtfromallow") == 0 {
+		base = allow[rapid.IntRange(0, len(allow)-1).Draw(t, "rtallowidx")]
+	}
+	// the origin the (possibly re-spelt) entry names
+	bo, _ := c27ParseEntry(base)
+	base = bo.Scheme + "://" + bo.Host
+	if bo.Port != "" {
+		base += ":" + bo.Port
+	}
 	hp := c27HostPort(base)
 	host := hp
 	if i := strings.LastIndex(hp, ":"); i >= 0 {
@@ -367,6 +421,22 @@ func c27GenReturnTo(t *rapid.T, allow []string) (string, bool) {
 	}
 	scheme := base[:strings.Index(base, "://")]
 	other := map[string]string{"http": "https", "https": "http"}[scheme]
+	if rapid.IntRange(0, 4).Draw(t, "rtport") == 0 {
+		// same scheme and host, explicit port from the family around the entry's
+		// own port and the well-known ones
+		ports := []string{"443", "80", "8443", "8080", "1", "65535"}
+		if n, err := strconv.Atoi(bo.Port); err == nil {
+			ports = append(ports, strconv.Itoa(n+1), strconv.Itoa(n-1), strconv.Itoa(n+8000), "0"+bo.Port)
+		}
+		var port string
+		if k := rapid.IntRange(0, len(ports)).Draw(t, "rtportpick"); k < len(ports) {
+			port = ports[k]
+		} else {
+			port = strconv.Itoa(rapid.IntRange(1, 65535).Draw(t, "rtportnum"))
+		}
+		tail := []string{"", "/", "/cb?x=1", "/a/b#frag"}[rapid.IntRange(0, 3).Draw(t, "rtporttail")]
+		return scheme + "://" + host + ":" + port + tail, true
+	}
 	if rapid.IntRange(0, 2).Draw(t, "rtgood") == 0 {
 		good := []string{base, base + "/", base + "/cb?x=1&y=2", base + "/a/b#frag", base + "?q=1", base + "#t",
 			strings.ToUpper(scheme) + "://" + hp + "/", base + "/" + strings.Repeat("p", 40), scheme + "://user:pw@" + hp + "/",
@@ -397,7 +467,7 @@ func c27GenReturnTo(t *rapid.T, allow []string) (string, bool) {
 }
 
 var c27Queries = []string{"", "", "a=1", "next=//evil.example", "x=%2F%2Fevil.example&y=%5C", "q=%zz", "a=b;c=d", "redirect=https://evil.example/",
-	"u=http://evil.example\\@x", "?", "=&=&", "utf=%E2%9C%93", "big=" }
+	"u=http://evil.example\\@x", "?", "=&=&", "utf=%E2%9C%93", "big="}
 
 func genC27(t *rapid.T) c27Case {
 	c := c27Case{}
@@ -407,7 +477,11 @@ func genC27(t *rapid.T) c27Case {
 	na := rapid.IntRange(0, 3).Draw(t, "nallow")
 	start := rapid.IntRange(0, len(c27AllowPool)-1).Draw(t, "allowstart")
 	for i := 0; i < na; i++ {
-		c.Allow = append(c.Allow, c27AllowPool[(start+i*3)%len(c27AllowPool)])
+		e := c27AllowPool[(start+i*3)%len(c27AllowPool)]
+		if rapid.IntRange(0, 2).Draw(t, "allowvariant") == 0 {
+			e = c27GenAllowEntry(t, e)
+		}
+		c.Allow = append(c.Allow, e)
 	}
 	c.ClientSecret = rapid.IntRange(0, 3).Draw(t, "secret") == 0
 	c.UseIDToken = rapid.IntRange(0, 3).Draw(t, "idtoken") == 0
@@ -646,10 +720,25 @@ func runC27(c c27Case) (out lib.Outcome) {
 		q = append(q, c.Query)
 	}
 	anyAdversarial := false
+	for _, e := range c.Allow {
+		o, ok := c27ParseEntry(e)
+		if !ok {
+			continue
+		}
+		if o.Port != "" && c27EffPort(o.Scheme, o.Port) == c27EffPort(o.Scheme, "") {
+			out.Label("allow:names-default-port")
+		}
+		if canon := strings.TrimSuffix(o.Scheme+"://"+o.Host+":"+o.Port, ":"); canon != e {
+			out.Label("allow:respelt-entry")
+		}
+	}
 	for _, rt := range c.ReturnTo {
 		k := c27Classify(rt, "\x00none", c.Allow)
 		if k != "external-ok" {
 			anyAdversarial = true
+		}
+		if k == "external-port-mismatch" {
+			out.Label("return_to:same-host-other-port")
 		}
 		if c.ReturnToRaw && c27SafeRaw(rt) {
 			q = append(q, "_vgi_return_to="+rt)
@@ -1074,11 +1163,12 @@ func runC27(c c27Case) (out lib.Outcome) {
 
 var propC27 = lib.Prop[c27Case]{
 	ID: "C27",
-	Rule: "black-box PKCE flow against a fake IdP on a loopback listener: prefix ''|/vgi|/a/b, 0-3 allowlist entries (with/without port) + the documented default + http localhost, landing/describe page request with an arbitrary query and 0-2 `_vgi_return_to` values (10 honest shapes; ~95 adversarial shapes: suffix/userinfo/percent/backslash/fragment confusions, scheme-relative and slash-count variants, other schemes, port and case mismatches, TAB/CR/LF/NUL, localhost look-alikes, IPv6, IDN homographs, 2048/2049/5000-byte values, random strings), optional _vgi_auth cookie (good/junk/expired JWT/live JWT); 1 case in 6 is of the oversize class instead: a browser GET whose path+query is one '&'-free parameter of m*65536+k bytes (m 1-4; k small, large or uniform), the same with a crafted record at offset len mod 65536 (two printable bytes read as a little-endian uint16 length + that many bytes of an attacker or allowlisted URL), single parameters of 1500-65535 bytes, and multi-parameter URLs of 5 KB-200 KB as controls; every login redirect is completed against the fake IdP and judged on behaviour: the final Location must be the request's own path+query (or its cut to <=2048 bytes, or the prefix root) or an allowlisted `_vgi_return_to` value this very request supplied, and tokens only in the latter; then the callback with state in {correct, one byte changed, empty, prefix, extended, other, case-swapped} and cookie in {as issued, bit flipped in each region (version, created, 4 fields, MAC), truncated bytes/text, signed with another key or the underived key, unpadded, absent, garbage, minted by the harness's own v4 packer with created_at offsets -1700000000..+601 s (packer validated first against the server)}. " +
+	Rule: "black-box PKCE flow against a fake IdP on a loopback listener: prefix ''|/vgi|/a/b, 0-3 allowlist entries (with/without port; one in three re-ported to its scheme's default port :443/:80, the other scheme's default, 8443/8080/1/65535/random or no port, and spelt plainly, with a trailing slash or with surrounding whitespace — always configured through SetOAuthPkce) + the documented default + http localhost, landing/describe page request with an arbitrary query and 0-2 `_vgi_return_to` values (10 honest shapes; ~95 adversarial shapes: suffix/userinfo/percent/backslash/fragment confusions, scheme-relative and slash-count variants, other schemes, port and case mismatches, TAB/CR/LF/NUL, localhost look-alikes, IPv6, IDN homographs, 2048/2049/5000-byte values, random strings; one value in five is the scheme and host of an entry with an explicit port from {443, 80, 8443, 8080, 1, 65535, entry port ±1, +8000, zero-padded, random}), optional _vgi_auth cookie (good/junk/expired JWT/live JWT); 1 case in 6 is of the oversize class instead: a browser GET whose path+query is one '&'-free parameter of m*65536+k bytes (m 1-4; k small, large or uniform), the same with a crafted record at offset len mod 65536 (two printable bytes read as a little-endian uint16 length + that many bytes of an attacker or allowlisted URL), single parameters of 1500-65535 bytes, and multi-parameter URLs of 5 KB-200 KB as controls; every login redirect is completed against the fake IdP and judged on behaviour: the final Location must be the request's own path+query (or its cut to <=2048 bytes, or the prefix root) or an allowlisted `_vgi_return_to` value this very request supplied, and tokens only in the latter; then the callback with state in {correct, one byte changed, empty, prefix, extended, other, case-swapped} and cookie in {as issued, bit flipped in each region (version, created, 4 fields, MAC), truncated bytes/text, signed with another key or the underived key, unpadded, absent, garbage, minted by the harness's own v4 packer with created_at offsets -1700000000..+601 s (packer validated first against the server)}. " +
 		"Non-trivial: `_vgi_return_to` present and adversarial, or a mutated cookie/state.",
-	Gen:          genC27,
-	Run:          runC27,
-	Essential:    []string{"return_to:adversarial", "return_to:allowed", "page:login-redirect", "page:early-redirect", "callback:exchanged", "callback:refused", "callback:external-redirect", "callback:same-origin-redirect", "cookie:mine-expired", "cookie:mine-fresh", "cookie:bitflip", "cookie:otherkey", "state:flip", "location:external-ok", "location:relative-ok",
+	Gen: genC27,
+	Run: runC27,
+	Essential: []string{"return_to:adversarial", "return_to:allowed", "page:login-redirect", "page:early-redirect", "callback:exchanged", "callback:refused", "callback:external-redirect", "callback:same-origin-redirect", "cookie:mine-expired", "cookie:mine-fresh", "cookie:bitflip", "cookie:otherkey", "state:flip", "location:external-ok", "location:relative-ok",
+		"allow:names-default-port", "allow:respelt-entry", "return_to:same-host-other-port",
 		"oversize:single-param-over-64k", "oversize:crafted-length-record", "oversize:multi-param-over-64k", "oversize:over-2048"},
 	EssentialMin: 400,
 	Assumptions: []string{
@@ -1086,6 +1176,7 @@ var propC27 = lib.Prop[c27Case]{
 		"'documented cut' of an over-long original URL: any prefix of the request's path+query of 2046-2048 bytes, or a shorter one ending at a parameter boundary ('?' or '&'), or the prefix root",
 		"a cookie is 'altered' only if its decoded bytes differ (unpadded re-encoding may be accepted); created_at in (now-601, now-598) or in the future is not judged",
 		"Location values are read the way a browser reads them (TAB/CR/LF stripped, '\\' as '/', any number of slashes after http(s):, userinfo up to the last '@'), host compared case-insensitively, default ports equal to explicit ones",
+		"an allowlist entry names the origin it spells: surrounding whitespace and a trailing slash/path do not change the scheme, host and port it names, and an entry that spells out its scheme's default port (:443, :80) names that port",
 	},
 }
 
